@@ -589,7 +589,7 @@ let do_end tokens =
 
 let tag_of_hfail text =
   if contains text "overlap" || contains text "misaligned" || contains text "out of range" then "[C01]"
-  else if contains text "solo" then "[C21]"
+  else if contains text "solo" || contains text "step limit" then "[C21]"
   else if contains text "scenario" then "[scenario]"
   else "[C03]"
 
